@@ -8,16 +8,21 @@ RULE = ("Agg.tla: definitions over Sel(s) / PairSel, the one-pass fold machine, 
         "(and every pair / mask) within the bound with every min_periods, runs the fold to the end and checks FoldRefines, "
         "FoldPrefix, PermInvariant (all permutations), NullTransparent; every case is replayed into the AggValidBasic / "
         "AggValidExt / AggBasic entry points over NaN-coded, None-coded, integer series and owned / borrowed / option-view "
-        "sources")
+        "sources, and again with the series measured in other units (Laws3.tla: homogeneity checked by TLC, degree table "
+        "emitted; 1.3e-4, 123467.8, 4e8 for i32, 1.5e18 for i64)")
 
 
 def run(ctx):
     q = ctx.quick
     r1 = ctx.tlc("agg", "MCAgg", "MCAgg_quick.cfg" if q else "MCAgg_thorough.cfg", workers=12, timeout=3000)
     r2 = ctx.tlc("agg2", "MCAgg", "MCAgg2_quick.cfg" if q else "MCAgg2_thorough.cfg", workers=12, timeout=3000)
+    # units of measurement: homogeneity of every scale-bearing aggregation, degree table for the harness
+    l3 = ctx.tlc("laws3", "MCLaws3", "MCLaws3_quick.cfg" if q else "MCLaws3_thorough.cfg", workers=8, timeout=3000)
+    ctx.tlc("laws3p", "MCLaws3", "MCLaws3p_quick.cfg" if q else "MCLaws3p_thorough.cfg", workers=8, timeout=3000, emit=False)
+    laws = ["--laws", l3["emitted"]]
     binp = ctx.build("tvh-agg")
-    ctx.harness("agg", binp, ["replay-agg", "--in", r1["emitted"]])
-    ctx.harness("agg2", binp, ["replay-agg", "--in", r2["emitted"]])
+    ctx.harness("agg", binp, ["replay-agg", "--in", r1["emitted"]] + laws)
+    ctx.harness("agg2", binp, ["replay-agg", "--in", r2["emitted"]] + laws)
     ctx.assumptions += BASE_ASSUMPTIONS + [
         "AggBasic (null-unaware) twins are checked on null-free input only (DESIGN 5.9)",
         "skewness / kurtosis of a constant sample are unspecified (DESIGN 5.6); the mean of an empty masked selection with "
